@@ -295,6 +295,10 @@ func (db *DB) loadIndexFromHintFile() (uint32, error) {
 	if err != nil {
 		return 0, err
 	}
+	// hint 文件仅在此处读取, 读取完成后关闭, mmap 实现下关闭时会恢复文件的真实大小
+	defer func() {
+		_ = hintFile.Close()
+	}()
 
 	// 实际读取到的最大数据文件 id
 	// 避免 hint 文件被删除导致无法加载的情况
